@@ -240,7 +240,10 @@ def case_hdrcache(case):
 GROUP_MEMBERS = ['$[*][yes()]', '$[1*][#1 == "x" push("s", #0)]', '$[1*][@c = count() print("l $.csvpath.line_number")]',
                  '$[1*][line_number() == 2 -> stop_all()]', '$[1*][line_number() == 1 -> fail_all()]', '$[1*][#1 == "y" -> skip_all()]',
                  '$[1*][line_number() == 1 -> advance_all(1)]', '$[1*][line_number() == 2 -> stop()]', '$[1*][@t = total_lines() yes()]',
-                 '$[*][line_number() == 3 -> fail()]']
+                 '$[*][line_number() == 3 -> fail()]',
+                 # a member that adds a header to its own line, and members whose outcome depends on the headers they are given
+                 '$[*][append("checked", "yes")]', '$[*][@hc = count_headers() yes()]', '$[1*][print("$.csvpath.headers")]',
+                 '$[1*][@hn = header_name(2) yes()]']
 
 
 def gen_group_history(seed, i):
